@@ -19,15 +19,30 @@ Fixpoint thrift_numbering (vs : list (option Z)) (prev : Z) : list Z :=
 Definition declared_value (p : enum_value * bool) : option Z :=
   if snd p then Some (ev_value (fst p)) else None.
 
+(** [wrap_int64] is the identity on the 64-bit range *)
+Lemma wrap_int64_id : forall x, - 9223372036854775808 <= x <= 9223372036854775807 -> wrap_int64 x = x.
+Proof.
+  intros x Hx. unfold wrap_int64.
+  rewrite Z.mod_small by lia. lia.
+Qed.
+
+(** no step of the numbering leaves the range in which Go's [int] addition is exact: every number
+    Apache Thrift assigns is a 64-bit integer below the largest one *)
+Definition numbering_in_range (vs : list (option Z)) (prev : Z) : Prop :=
+  Forall (fun v => - 9223372036854775808 <= v < 9223372036854775807) (thrift_numbering vs prev).
+
 Lemma enum_number_spec : forall evs next,
+  numbering_in_range (map declared_value evs) (next - 1) ->
   map ev_value (enum_number evs next) = thrift_numbering (map declared_value evs) (next - 1).
 Proof.
-  induction evs as [|[ev ex] t IH]; intros next; cbn [enum_number map thrift_numbering declared_value fst snd].
+  induction evs as [|[ev ex] t IH]; intros next Hr; cbn [enum_number map thrift_numbering declared_value fst snd] in *.
   - reflexivity.
-  - destruct ex; cbn [map ev_value].
-    + rewrite IH. replace (ev_value ev + 1 - 1) with (ev_value ev) by lia. reflexivity.
-    + rewrite IH. replace (next - 1 + 1) with next by lia.
-      replace (next + 1 - 1) with next by lia. reflexivity.
+  - unfold numbering_in_range in Hr. destruct ex; cbn [map ev_value thrift_numbering] in *.
+    + inversion Hr as [|? ? Hv Hrest]; subst. rewrite (wrap_int64_id (ev_value ev + 1)) by lia.
+      rewrite IH; replace (ev_value ev + 1 - 1) with (ev_value ev) by lia; [reflexivity | exact Hrest].
+    + inversion Hr as [|? ? Hv Hrest]; subst. replace (next - 1 + 1) with next in * by lia.
+      rewrite (wrap_int64_id (next + 1)) by lia.
+      rewrite IH; replace (next + 1 - 1) with next by lia; [reflexivity | exact Hrest].
 Qed.
 
 Lemma enum_number_keeps : forall evs next,
@@ -37,18 +52,35 @@ Lemma enum_number_keeps : forall evs next,
 Proof.
   induction evs as [|[ev ex] t IH]; intros next; cbn [enum_number map fst].
   - repeat split.
-  - destruct (IH ((if ex then ev_value ev else next) + 1)) as (H1 & H2 & H3).
+  - destruct (IH (wrap_int64 ((if ex then ev_value ev else next) + 1))) as (H1 & H2 & H3).
     cbn [ev_name ev_comment ev_anns]. rewrite H1, H2, H3. repeat split.
 Qed.
 
 Lemma enum_numbering_full : forall evs,
+  numbering_in_range (map declared_value evs) (-1) ->
   map ev_value (enum_number evs 0) = thrift_numbering (map declared_value evs) (-1)
   /\ map ev_name (enum_number evs 0) = map (fun p => ev_name (fst p)) evs
   /\ map ev_comment (enum_number evs 0) = map (fun p => ev_comment (fst p)) evs
   /\ map ev_anns (enum_number evs 0) = map (fun p => ev_anns (fst p)) evs.
 Proof.
-  intros evs. split; [exact (enum_number_spec evs 0) | exact (enum_number_keeps evs 0)].
+  intros evs Hr. split; [exact (enum_number_spec evs 0 Hr) | exact (enum_number_keeps evs 0)].
 Qed.
+
+(** names, comments and annotations are kept whatever the numbers *)
+Lemma enum_numbering_keeps_full : forall evs,
+  map ev_name (enum_number evs 0) = map (fun p => ev_name (fst p)) evs
+  /\ map ev_comment (enum_number evs 0) = map (fun p => ev_comment (fst p)) evs
+  /\ map ev_anns (enum_number evs 0) = map (fun p => ev_anns (fst p)) evs.
+Proof. intros evs. exact (enum_number_keeps evs 0). Qed.
+
+(** at the edge the code departs from Apache Thrift: the value after 9223372036854775807 is
+    -9223372036854775808 (Go int wrap-around), where Thrift's previous + 1 is 9223372036854775808 *)
+Lemma enum_numbering_overflow : forall ev1 ev2,
+  map ev_value (enum_number [(mkev None ev1 9223372036854775807 [], true); (mkev None ev2 (-1) [], false)] 0)
+  = [9223372036854775807; -9223372036854775808]
+  /\ thrift_numbering [Some 9223372036854775807; None] (-1) = [9223372036854775807; 9223372036854775808].
+Proof. intros. split; reflexivity. Qed.
+
 
 (** ** The generated grammar is what the translator says it read, and the model knows every
     action and rule it mentions *)
